@@ -3,7 +3,8 @@
 # Confirms a seeded change in its scratch worktree (tests pass, demo fails with / passes without), then runs our
 # checks against it in /repo (apply, run, revert) and files it under /verif/seeded/<PROP>-<X>/.
 ID=$1; X=$2; shift 2; CHECKS=${@:-$ID}
-WT=/tmp/scratch/mut-$ID; M=$WT/MUTATION
+# SEED_WT: worktree holding MUTATION/ (default /tmp/scratch/mut-<ID>); SEED_AS: letter to file the change under (default X)
+WT=${SEED_WT:-/tmp/scratch/mut-$ID}; M=$WT/MUTATION; AS=${SEED_AS:-$X}
 export CARGO_NET_OFFLINE=true
 FEAT=""; grep -q verif_hooks $M/$X.demo.rs 2>/dev/null && FEAT="--features verif_hooks"
 cd $WT || exit 2
@@ -25,7 +26,7 @@ for c in $CHECKS; do
   RES[$c]=$(echo "$out" | head -1 | cut -c1-160)
 done
 git -C /repo checkout -- .
-D=/verif/seeded/$ID-$X; mkdir -p $D
+D=/verif/seeded/$ID-$AS; mkdir -p $D
 cp $M/$X.patch.diff $D/patch.diff; cp $M/$X.demo.rs $D/demo.rs
 python3 - "$M/$X.meta.json" "$D/meta.json" "$clean" "$suite" "$mutated" "$(for c in $CHECKS; do echo "$c => ${RES[$c]}"; done)" <<'PY'
 import json,sys
